@@ -56,6 +56,8 @@ pub enum Error {
     UnexpectedChar(String, usize),
     #[error("comma required at {0}")]
     CommaRequired(usize),
+    #[error("unexpected end of number at {0}")]
+    UnexpectedEnd(usize),
     #[error("unexpressible decimal {0}")]
     InvalidDecimal(#[from] rust_decimal::Error),
 }
@@ -127,6 +129,7 @@ impl FromStr for PrettyDecimal {
         let mut scale: Option<u32> = None;
         let mut prefix_len = 0;
         let mut sign = 1;
+        let mut has_digit = false;
         let aligned_comma = |offset, cp, pos| match (cp, pos) {
             (None, _) if pos > offset && pos <= 3 + offset => true,
             _ if cp == Some(pos) => true,
@@ -138,11 +141,13 @@ impl FromStr for PrettyDecimal {
                     prefix_len = 1;
                     sign = -1;
                 }
-                (_, _, b',') if aligned_comma(prefix_len, comma_pos, i) => {
+                // comma is only allowed in the integral part.
+                (_, _, b',') if scale.is_none() && aligned_comma(prefix_len, comma_pos, i) => {
                     format = Some(Format::Comma3Dot);
                     comma_pos = Some(i + 4);
                 }
-                (_, _, b'.') if comma_pos.is_none() || comma_pos == Some(i) => {
+                // only one decimal point is allowed.
+                (_, _, b'.') if scale.is_none() && (comma_pos.is_none() || comma_pos == Some(i)) => {
                     scale = Some(0);
                     comma_pos = None;
                 }
@@ -153,6 +158,7 @@ impl FromStr for PrettyDecimal {
                     if scale.is_none() && format.is_none() && i >= 3 + prefix_len {
                         format = Some(Format::Plain);
                     }
+                    has_digit = true;
                     mantissa = mantissa * 10 + (c as u32 - '0' as u32) as i128;
                     scale = scale.map(|x| x + 1);
                 }
@@ -160,6 +166,10 @@ impl FromStr for PrettyDecimal {
                     return Err(Error::UnexpectedChar(try_find_char(s, i, c), i));
                 }
             }
+        }
+        // The last comma-separated group must be complete, and there must be some digits.
+        if !has_digit || comma_pos.is_some_and(|cp| cp != s.len()) {
+            return Err(Error::UnexpectedEnd(s.len()));
         }
         let value = Decimal::try_from_i128_with_scale(sign * mantissa, scale.unwrap_or(0))?;
         Ok(Self { format, value })
